@@ -27,6 +27,24 @@ fn vol_of(b: &Built) -> VolCfg {
     }
 }
 
+/// Paths (lossy spelling) of entries whose long name holds an unpaired surrogate: found by no spelling.
+fn surrogate_paths(n: &Node, path: &str, out: &mut Vec<String>) {
+    for k in &n.kids {
+        if let Some(l) = &k.long {
+            if l.contains(crate::imgbuild::LONE) {
+                let shown = crate::imgbuild::display_of(l);
+                out.push(if path.is_empty() { shown } else { format!("{}/{}", path, shown) });
+            }
+        }
+        if k.is_dir {
+            if let Some(name) = &k.open_name {
+                let p = if path.is_empty() { name.clone() } else { format!("{}/{}", path, name) };
+                surrogate_paths(k, &p, out);
+            }
+        }
+    }
+}
+
 /// (path, is_dir, size) of everything that can be addressed by name, parents before children.
 fn addressable(n: &Node, path: &str, out: &mut Vec<(String, bool, usize)>) {
     for k in &n.kids {
@@ -81,6 +99,15 @@ fn one(id: String, seed: u64, bits: u8, kind: VolKind, rng: &mut SplitMix64, sin
                 }
                 cx.step(Op::DropF(f));
             }
+        }
+    }
+    // names with an unpaired surrogate: the comparison stops at the undecodable unit
+    let mut lone = Vec::new();
+    surrogate_paths(&built.root, "", &mut lone);
+    for p in lone {
+        let f = cx.new_f();
+        if cx.step(Op::OpenFile { d: 0, path: p.into_bytes(), new: f }).is_ok() {
+            cx.step(Op::DropF(f));
         }
     }
     // (a stored free count beyond the number of clusters is treated like a missing one: `stats` recounts and the
